@@ -42,6 +42,12 @@ def configs(tier):
         cfgs.append({"name": f"all-n5-m0_{m0}-reversed-insertion", "n": 5, "m0": m0, "fixed": [], "free": "all", "variant": "rev"})
         cfgs.append({"name": f"all-n5-m0_{m0}-gapped-labels", "n": 5, "m0": m0, "fixed": [], "free": "all", "variant": "gap"})
         cfgs.append({"name": f"all-n4-m0_{m0}-after-another-object", "n": 4, "m0": m0, "fixed": [], "free": "all", "variant": "warm"})
+    # 7-vertex templates: a fixed ring of triangles plus symbolic chords (sparse graphs with many overlapping triangles)
+    ring7 = [(0, 3), (0, 6), (1, 3), (1, 4), (2, 3), (2, 4), (3, 4), (3, 6), (4, 5), (4, 6), (5, 6)]
+    for m0 in (3,) if q else (3, 4):
+        cfgs.append({"name": f"n7-triangle-ring-m0_{m0}", "n": 7, "m0": m0, "fixed": ring7[:7], "free": ring7[7:] + [(0, 1), (1, 2), (2, 5), (0, 4)] + ([] if q else [(1, 6), (2, 6)])})
+    if not q:
+        cfgs.append({"name": "all-n7-e11-m0_3", "n": 7, "m0": 3, "fixed": [], "free": "all", "edges_exact": 11})
     # larger graphs as templates: a fixed dense part plus a few symbolic pairs
     k6 = [(a, b) for a in range(6) for b in range(a + 1, 6)]
     free6 = [(0, 6), (2, 6), (3, 6), (4, 6)] + [(1, 7), (2, 7), (3, 7), (4, 7), (5, 7)]
@@ -80,6 +86,11 @@ def fork_graph(ctx, cfg):
     for v in range(n):
         if not any(v in p for p in fixed):
             ctx.assume(any_(b for p, b in bits.items() if v in p))
+    if cfg.get("edges_exact"):
+        cnt = 0
+        for b in bits.values():
+            cnt = cnt + ite(b, 1, 0)
+        ctx.assume(cnt == cfg["edges_exact"] - len(fixed))
     edges = sorted(fixed) + [p for p in free if ctx.fork_bool(bits[p])]
     return sorted(edges)
 
